@@ -8,6 +8,9 @@ import GLua.Proofs.CompileWfDefs
 namespace GLua.CompileWf
 open GLua GLua.Compile GLua.MiniVM GLua.Verifier GLua.Generated
 
+variable [NumStruct]
+set_option linter.unusedSectionVars false
+
 theorem dec_ABC (op a b c : Nat) (hop : op < 64) :
     (decode (wordABC op a b c)).op = op ∧ (decode (wordABC op a b c)).a = a % 256 ∧
     (decode (wordABC op a b c)).b = b % 512 ∧ (decode (wordABC op a b c)).c = c % 512 := by
